@@ -82,8 +82,10 @@ def carry_data(vals, carrier, conc=None, f=None):
     raise KeyError(carrier)
 
 
-def carry_time(secs, carrier, tbase):
-    """secs: list of ints (relative seconds) -> time input."""
+def carry_time(secs, carrier, tbase, tunit=1):
+    """secs: list of ints (relative time in units of tunit seconds) -> time input."""
+    if tunit != 1:
+        return carry_time_frac(secs, carrier, tbase, tunit)
     ep = [tbase + s for s in secs]
     a_s = np.array(ep, dtype="int64").astype("datetime64[s]")
     if carrier == "dt64ns":
@@ -110,6 +112,36 @@ def carry_time(secs, carrier, tbase):
         return list(ep)
     if carrier == "epoch_i64":
         return np.array(ep, dtype=np.int64)
+    if carrier == "epoch_f64":
+        return np.array(ep, dtype=np.float64)
+    raise KeyError(carrier)
+
+
+def carry_time_frac(units, carrier, tbase, tunit):
+    """sub-second axes (only used to compare carriers with each other, C15)"""
+    ns = np.array([int(round((tbase + u * tunit) * 10**9)) for u in units], dtype="int64")
+    a = ns.astype("datetime64[ns]")
+    ep = [tbase + u * tunit for u in units]
+    if carrier == "dt64ns":
+        return a
+    if carrier == "dt64us":
+        return a.astype("datetime64[us]")
+    if carrier == "dt64ms":
+        return a.astype("datetime64[ms]")
+    if carrier == "pydt":
+        return [_dt.datetime(1970, 1, 1) + _dt.timedelta(microseconds=int(n) // 1000) for n in ns]
+    if carrier == "pdts":
+        return [pd.Timestamp(int(n)) for n in ns]
+    if carrier == "dtindex":
+        return pd.DatetimeIndex(a)
+    if carrier == "series_naive":
+        return pd.Series(a)
+    if carrier == "series_utc":
+        return pd.Series(pd.DatetimeIndex(a).tz_localize("UTC"))
+    if carrier == "dtindex_utc":
+        return pd.DatetimeIndex(a).tz_localize("UTC")
+    if carrier == "epoch_list":
+        return [float(e) for e in ep]
     if carrier == "epoch_f64":
         return np.array(ep, dtype=np.float64)
     raise KeyError(carrier)
@@ -160,7 +192,7 @@ def build(call, conc):
     unit, tb = c["unit"], c["tbase"]
     fv = lambda v: cval(v, c)  # noqa: E731
     X = lambda: carry_data(call["x"], c["xc"], c, fv)  # noqa: E731
-    T = lambda: carry_time(call["t"], c["tc"], tb)  # noqa: E731
+    T = lambda: carry_time(call["t"], c["tc"], tb, c.get("tunit", 1))  # noqa: E731
     if fn == "gross":
         kw = {"inp": X(), "fail_span": span(p["fail"], c, fv)}
         if len(p["susp"]):
